@@ -2530,6 +2530,15 @@ class Engine:
 
     ex_GeneratorExp = ex_ListComp
 
+    def ex_DictComp(self, e, st):
+        # only through the contract's model of the dictionary that is built
+        h = self.contract.hooks.get('dictcomp')
+        if h:
+            r = h(self, e, st)
+            if r is not None:
+                return r
+        raise Unsupported(e, 'dict comprehension')
+
     def box_any(self, v, facts, node):
         """Any-sorted term equal to the scalar value v (facts: what the solver must know about it)"""
         if v.k == 'any':
